@@ -336,7 +336,7 @@ class Fn:
             self._mr = res
         return self._mr
 
-    def origins(self, start, passthru=CONVERSIONS, deep=False, stop=None, maxn=4000, outflow=False):
+    def origins(self, start, passthru=CONVERSIONS, deep=False, stop=None, maxn=4000, outflow=False, visited=None):
         """Backward slice.  start: a local (int) or an operand dict.
         Returns a set of atoms:
           ('call', path, bb)   value produced by a call (declared path; resolved path also as ('callres', ...))
@@ -484,6 +484,8 @@ class Fn:
                             if p is not None and p[0] in mrt and l in mrt[p[0]]:
                                 continue
                             push_op(a)
+        if visited is not None:
+            visited.update(seen)
         return atoms
 
     def forward(self, start_locals, passthru=CONVERSIONS, extra_passthru=None):
